@@ -101,8 +101,9 @@ Definition tiles (g : gridspec) (tol : Q) (bounds : Q * Q * Q * Q) : list (Z * Z
   flat_map (fun iy => map (fun ix => (ix, iy)) (zrange ix1 ix2)) (zrange iy1 iy2).
 
 (** GridSpec.tiles_from_geopolygon.  Oracles: [bbox_of p] = bounding box of the
-    polygon converted to the grid CRS, [disjoint p b] = shapely's
-    [geopolygon.disjoint(tile_geobox.extent)]. *)
+    polygon converted to the grid CRS, [disjoint p b] = "no overlap": shapely's
+    [geopolygon.disjoint(extent) or geopolygon.touches(extent)] of the tile extent
+    (tiles sharing only boundary points with the query are dropped). *)
 Definition tiles_from_geopolygon {P : Type} (bbox_of : P -> Q * Q * Q * Q)
            (disjoint : P -> gbox -> bool) (g : gridspec) (tol : Q) (p : P) : list (Z * Z) :=
   filter (fun idx => negb (disjoint p (tile_geobox g idx))) (tiles g tol (bbox_of p)).
